@@ -8,6 +8,9 @@ CHECKS = {
  "C01": ("exploration", "proptest generation of canonical values from an independent layout table; round-trip oracle on the real types (decode-first bridge)",
          "For all 55 shipped packet/TLV types, thousands of generated canonical values per type (every optional present/absent, vec lengths, boundary-biased numbers and lengths, whole CP437/hex alphabets, APDU bodies pumped onto the 254/255 and TLV 127/128, 255/256 switch points) are pushed through the repository's serialiser and deserialiser and compared with PartialEq, no bytes left.",
          "Trusted: reference codec + layout table define the canonical domain (DESIGN.md 5.1). Values enter the real types through the repo's decoder; C03 verifies on the same cases that this decoder yields exactly the intended value.", "7/C01"),
+ "C02": ("exploration", "exhaustive small inputs + deterministic corpus mutation + proptest structure-aware mutation (+ libFuzzer in the thorough tier); oracle: no panic / bounded allocation / suffix remainder / exact-value differential / debug-vs-release outcome digests",
+         "All 55 packet decoders and 17 reply parsers are fed every small input, every truncation and boundary (thorough: every) single-byte substitution of a corpus of captured and generated packets, and randomly generated structure-aware mutants (length announcements and BER forms, digit overflow, calendar values, group splices, APDU length edits). Each call must return without panicking in a build with overflow checks, allocate at most a small multiple of the input, hand back a suffix, agree with an exact u128 reference reading when both accept, and give the same outcome in a release build.",
+         "Trusted: reference decoder for the exact-value differential; counting allocator in the harness binary. Explores the stated mutation neighbourhoods, not all 64 KiB strings.", "7/C02"),
  "C03": ("exploration", "proptest generation + differential against a reference codec interpreting an independent layout table (both directions), plus captured blobs",
          "Bytes assembled by an independent reference codec from a hand-written layout table must decode into exactly the named fields (compared through Debug) with nothing left, and the repository must re-encode them to the identical bytes, for generated canonical values of all 55 types; the 24 captured packets are read by both decoders.",
          "Trusted: harness/src/layouts.tbl (transcribed from the ZVT / Feig specification, cross-checked against the captured blobs) and harness/src/refc.rs. A layout error shared by table and code is invisible.", "7/C03"),
